@@ -1,8 +1,8 @@
 package dml
 
 import (
-	"strings"
 	"fmt"
+	"strings"
 
 	"verif/harness/internal/rv"
 )
@@ -320,6 +320,23 @@ func Variants(s *State, thorough bool) []Variant {
 			add(Variant{Id: n + "-ins-div0-2nd-row", Late: true,
 				Op:    &Insert{Id: "v", Tab: n, Rows: [][]Expr{full(LS("r1")), full(Arith{'/', LI(1), LI(0)})}},
 				Retry: &Insert{Id: "r", Tab: n, Rows: [][]Expr{full(LS("r1")), full(Arith{'/', LI(1), LI(1)})}}})
+		}
+		if len(t.Cols) >= 1 {
+			// the first row takes its values from cells of ANOTHER table (scalar sub-queries hand out the stored
+			// objects themselves), then the second row fails: u must stay as it is, also after later evaluation
+			sub := func(i int) Expr {
+				if i%2 == 0 {
+					return ScalarSub{Tab: "u", Col: "k", WCol: "w", WVal: "30"}
+				}
+				return ScalarSub{Tab: "u", Col: "w", WCol: "k", WVal: "k1"}
+			}
+			r1 := make([]Expr, len(t.Cols))
+			for i := range r1 {
+				r1[i] = sub(i)
+			}
+			add(Variant{Id: n + "-ins-subquery-values-then-div0-2nd-row", Late: true,
+				Op:    &Insert{Id: "v", Tab: n, Rows: [][]Expr{r1, full(Arith{'/', LI(1), LI(0)})}},
+				Retry: &Insert{Id: "r", Tab: n, Rows: [][]Expr{r1, full(Arith{'/', LI(1), LI(1)})}}})
 		}
 		add(Variant{Id: n + "-ins-unknown-field",
 			Op:    &Insert{Id: "v", Tab: n, Cols: []string{"k", "nosuch"}, Rows: [][]Expr{row(LS("z1"), LI(1))}},
